@@ -126,6 +126,15 @@ func interpolateMapValues[K comparable, V any, M ~map[K]V](tf stringTransformer,
 // interpolateMap applies interpolateAny over both keys and values of any type
 // of map. The map is altered in-place.
 func interpolateMap[K comparable, V any, M ~map[K]V](tf stringTransformer, m M) error {
+	// Interpolate everything first and rewrite the map afterwards. Inserting a
+	// renamed key into a map while ranging over it means the new entry may or
+	// may not be produced by the same range loop - and if it is, the key and
+	// value would be interpolated a second time.
+	type entry struct {
+		oldKey, newKey K
+		value          V
+	}
+	entries := make([]entry, 0, len(m))
 	for k, v := range m {
 		// We interpolate both keys and values.
 		intk, err := interpolateAny(tf, k)
@@ -139,11 +148,17 @@ func interpolateMap[K comparable, V any, M ~map[K]V](tf stringTransformer, m M) 
 			return err
 		}
 
-		// If the key changed due to interpolation, delete the old key.
-		if k != intk {
-			delete(m, k)
+		entries = append(entries, entry{oldKey: k, newKey: intk, value: intv})
+	}
+
+	// If a key changed due to interpolation, delete the old key.
+	for _, e := range entries {
+		if e.oldKey != e.newKey {
+			delete(m, e.oldKey)
 		}
-		m[intk] = intv
+	}
+	for _, e := range entries {
+		m[e.newKey] = e.value
 	}
 	return nil
 }
